@@ -301,6 +301,60 @@ pub fn scenarios() -> Vec<(&'static str, Op)> {
             drop((c1, c2));
             Held::of(owned, (keep, l))
         }),
+        ("UnixListener accept of clients bound to names of their own (short, 107 and 108 bytes)", |e| {
+            // the peer's address comes back from accept4: a client bound to a path that fills sun_path to its last byte
+            // (108 bytes, no terminator) makes the kernel report a length beyond the structure
+            let mut l = ok_or_none!(UnixListener::bind(&p(e, "accb.sock")));
+            let mut owned = vec![fd_of_ul(&l)];
+            let mut keep: Vec<Box<dyn Any>> = Vec::new();
+            let target = e.root.join("accb.sock");
+            let mut clients = Vec::new();
+            for (k, total) in [(0usize, 0usize), (1, 107), (2, 108), (3, 108), (4, 107)] {
+                let base = format!("{}/c{k}", e.root.display());
+                let mut name = base.into_bytes();
+                while name.len() < total {
+                    name.push(b'n');
+                }
+                if name.len() > 108 {
+                    continue;
+                }
+                unsafe {
+                    let fd = libc::socket(libc::AF_UNIX, libc::SOCK_STREAM | libc::SOCK_CLOEXEC, 0);
+                    if fd < 0 {
+                        continue;
+                    }
+                    let mk = |b: &[u8]| {
+                        let mut sa: libc::sockaddr_un = core::mem::zeroed();
+                        sa.sun_family = libc::AF_UNIX as u16;
+                        for (i, &c) in b.iter().enumerate() {
+                            sa.sun_path[i] = c as libc::c_char;
+                        }
+                        (sa, (2 + b.len() + usize::from(b.len() < 108)) as u32)
+                    };
+                    let (own, own_len) = mk(&name);
+                    let t = target.as_os_str().as_encoded_bytes();
+                    let (to, to_len) = mk(t);
+                    if libc::bind(fd, &own as *const _ as *const libc::sockaddr, own_len) != 0 || libc::connect(fd, &to as *const _ as *const libc::sockaddr, to_len) != 0 {
+                        libc::close(fd);
+                        continue;
+                    }
+                    clients.push(fd);
+                }
+                let r = match k % 3 {
+                    0 => l.accept().ok(),
+                    1 => l.try_accept().ok().flatten(),
+                    _ => l.accept_with_timeout(core::time::Duration::from_millis(50)).ok(),
+                };
+                if let Some(s) = r {
+                    owned.push(fd_of(&s));
+                    keep.push(Box::new(s));
+                }
+            }
+            for fd in clients {
+                unsafe { libc::close(fd) };
+            }
+            Held::of(owned, (keep, l))
+        }),
         ("TcpListener::bind + accept variants", |_e| {
             let mut l = ok_or_none!(TcpListener::bind(&SocketAddress::new(Ip::V4([127, 0, 0, 1]), 0)));
             let mut owned = vec![fd_of_tl(&l)];
